@@ -102,6 +102,8 @@ class Sched(object):
         self.used0 = 0                  # preemptions spent inside the prefix
         self.state_keys = 0
         self.in_state_fn = False
+        self.lenient = False            # replaying a schedule recorded on
+        self.diverged = False           # another tree: divergence tolerated
         drv = self._new_agent('driver')
         drv.ident = threading.get_ident()
         self.by_ident[drv.ident] = drv
@@ -169,9 +171,12 @@ class Sched(object):
             if i < len(self.prefix):
                 idx = self.prefix[i]
                 if not 0 <= idx < len(en):
-                    raise Nondeterminism(
-                        'choice %d out of range (%d enabled) at point %d'
-                        % (idx, len(en), i))
+                    if not self.lenient:
+                        raise Nondeterminism(
+                            'choice %d out of range (%d enabled) at point %d'
+                            % (idx, len(en), i))
+                    self.diverged = True    # replay on a different tree
+                    idx = 0
             elif self.visited is not None and self.state_fn is not None:
                 # new territory: have we expanded this state before with at
                 # least as much preemption budget left?  Then every
@@ -655,14 +660,14 @@ def install(conn_module):
 class Execution(object):
     """What one run leaves behind for the explorer."""
     __slots__ = ('points', 'choices', 'result', 'failure', 'steps',
-                 'preemptions', 'switches', 'state_keys')
+                 'preemptions', 'switches', 'state_keys', 'diverged')
 
 
 _EXEC_COUNTER = [0]
 
 
 def run_execution(body, prefix=(), tracing=False, horizon=20000, expect=None,
-                  visited=None, budget=0):
+                  visited=None, budget=0, lenient=False):
     """Run body(S) as the driver agent under a fresh scheduler."""
     global CUR
     if CUR is not None:
@@ -670,6 +675,7 @@ def run_execution(body, prefix=(), tracing=False, horizon=20000, expect=None,
     S = Sched(prefix, horizon, tracing, expect)
     _EXEC_COUNTER[0] += 1
     S.visited, S.budget, S.exec_id = visited, budget, _EXEC_COUNTER[0]
+    S.lenient = lenient
     CUR = S
     x = Execution()
     x.result = x.failure = None
@@ -685,7 +691,8 @@ def run_execution(body, prefix=(), tracing=False, horizon=20000, expect=None,
             CUR = None
     if S.failure and S.failure[0] == 'tool':
         raise ToolError('inside agent: %s' % S.failure[1])
-    if len(S.choices) < len(S.prefix) and not (
+    x.diverged = S.diverged or len(S.choices) < len(S.prefix)
+    if len(S.choices) < len(S.prefix) and not lenient and not (
             x.failure and x.failure[0] == 'pruned'):
         raise Nondeterminism('execution ended after %d choice points, prefix '
                              'has %d' % (len(S.choices), len(S.prefix)))
